@@ -352,6 +352,13 @@ def plan(pid, tr, sd):
     return jobs
 
 
+def xo_array_fns():
+    import xobjects as xo
+    import xobjects.array as xa
+
+    return [xo.array.MetaArray.__new__, xa.get_strides, xa.get_offset, xa.bound_check, xa.rewrite_item, xo.struct.MetaStruct.__new__, xo.Struct._set_offsets, xo.string.MetaString._inspect_args]
+
+
 LEVELS = {p: "model_checking" for p in ("C01", "C03", "C05", "C06", "C08", "C09", "C10", "C11")}
 
 
@@ -374,6 +381,20 @@ def main(pid):
             desc = f"{job[2]} [{json.dumps(job[5], default=str)} {json.dumps(job[4])}]: {cex['obligation']} with placement {cex['model']}"
             kind = job[5].get("kind", "BufferNumpy")
             rep.candidate(sig, desc, REPLAY.format(job=repr(job), model=repr(cex["model"]), kind=kind, want=norm_what(cex["obligation"])))
+    # mode P: the planners/writers/readers on symbolic dimensions, sizes, indices and string lengths
+    from checks import pmode
+
+    pjobs = pmode.jobs(pid, tr)
+    if pjobs:
+        pres = run_parallel(pmode.dispatch, pjobs)
+        for (kind, cfg), res in zip(pjobs, pres):
+            rep.add_engine_result(res)
+            for cex in res["cexs"]:
+                sig = f"P-{kind}:{norm_what(cex['obligation'])}"
+                rep.candidate(sig, f"{res['name']}: {cex['obligation']} with {json.dumps(cex.get('detail'), default=str)}", pmode.REPLAY.format(kind=kind, cfg=tuple(cfg), detail=cex.get("detail")))
+        rep.extra["mode_P_harnesses"] = len(pjobs)
+        for fn in (xo_array_fns()):
+            rep.add_function(fn)
     # validation of the storage model (S9) and of the harness: the same scenarios, concretely, on both real buffer kinds
     step = 1 if tr == "thorough" else 2
     vjobs = [(j, k) for i, j in enumerate(jobs) if i % step == 0 for k in ("BufferNumpy", "BufferByteArray")]
